@@ -304,6 +304,9 @@ class IntroVisitor(ast.NodeVisitor):
         # _logger.debug(f"visit_call: call name is {n}")
         if n is not None:
             self._store_names.add(n)
+        # The function handed to dds.keep / dds.eval is analysed with this call (and its arguments), not as a
+        # bare reference to the function (which would analyse it a second time, without arguments).
+        self._store_names.update(self._dds_callee_names(node))
         # This is a bit brute-force but it should be good enough in practice for most cases:
         # all the lines up to the end of the call (a call may span several lines).
         # TODO: refine it based of the nested parse tree?
@@ -401,6 +404,25 @@ class IntroVisitor(ast.NodeVisitor):
             if p in self._gctx.resolved_references
         ]
         return dds_hash_commut(_fis_to_siglist(self.inters) + loads)
+
+    def _dds_callee_names(self, node: ast.Call) -> List[LocalVar]:
+        """
+        The name of the function given to dds.keep(path, fun, ...) or dds.eval(fun, ...), if this call is one.
+        """
+        f = node.func
+        called: Any = None
+        if isinstance(f, ast.Name):
+            called = self._start_mod.__dict__.get(f.id)
+        elif isinstance(f, ast.Attribute) and isinstance(f.value, ast.Name):
+            called = getattr(self._start_mod.__dict__.get(f.value.id), f.attr, None)
+        if getattr(called, "__module__", None) != "dds" or getattr(
+            called, "__name__", None
+        ) not in ("keep", "eval"):
+            return []
+        idx = 1 if called.__name__ == "keep" else 0
+        if len(node.args) > idx and isinstance(node.args[idx], ast.Name):
+            return [LocalVar(node.args[idx].id)]
+        return []
 
     @staticmethod
     def _get_call_name(node: ast.expr) -> Optional[LocalVar]:
